@@ -524,7 +524,7 @@ Proof.
   assert (Hph : ph = PFg) by (apply Hcl; reflexivity). subst ph.
   assert (Hns : in_stopped inn = false) by (apply Hst; discriminate).
   match goal with |- context [if ?c then _ else _] => destruct c end; simpl.
-  - split; [|auto]. apply miss_good_fin; auto. apply inner_good_stop; assumption.
+  - split; [|auto]. apply miss_good_fin; auto; try (apply inner_good_stop; assumption).
   - split; [|auto]. apply miss_good_bg; auto; try discriminate.
 Qed.
 
@@ -560,8 +560,9 @@ Proof.
       rewrite Hout. symmetry. apply firstn_snoc. exact En.
     + split; [|repeat split; auto]. unfold hit_good. auto.
   - inversion H; subst h' r; clear H.
-    split; [unfold hit_good; auto|]. repeat split; auto.
-    intros _. rewrite Hout, <- Hit.
+    split; [unfold hit_good; auto|].
+    split; [reflexivity|]. split; [reflexivity|]. split; [assumption|].
+    intros _. unfold res_spec. split; [reflexivity|]. rewrite Hout, <- Hit.
     assert (hi_pos h = length (hi_items h)) by (apply nth_error_none_len; assumption).
     rewrite firstn_full by assumption.
     rewrite Hit, map_map. apply map_ext. intro a. apply norm_v_idem.
@@ -601,4 +602,306 @@ Proof.
     { unfold byp_good. split; [exact Hin'|]. split; [|exact Hpre].
       intro Hs. rewrite Hr. apply Hout. congruence. }
     destruct b; (split; [exact Hb|split; [exact Hs'|]]); intros _; reflexivity.
+Qed.
+
+(* ------------------------------------------------------------------------------------------ *)
+(* state plumbing *)
+
+Lemma Inv_set_iter W st i it : Inv W st -> iter_good W it -> Inv W (set_iter st i it).
+Proof.
+  intros (Hc & Hw & Hi) Hit. unfold Inv; simpl. repeat split; auto. apply Forall_upd_nth; assumption.
+Qed.
+
+Lemma Inv_push_iter W st it : Inv W st -> iter_good W it -> Inv W (push_iter st it).
+Proof.
+  intros (Hc & Hw & Hi) Hit. unfold Inv; simpl. repeat split; auto.
+  apply Forall_app. split; [assumption|]. constructor; [assumption|constructor].
+Qed.
+
+Lemma Inv_set_cache W st c : Inv W st -> cache_good W c -> Inv W (set_cache st c).
+Proof. intros (Hc & Hw & Hi) H. unfold Inv; simpl. auto. Qed.
+
+Lemma Inv_set_sf W st sf : Inv W st -> Inv W (set_sf st sf).
+Proof. intros (Hc & Hw & Hi). unfold Inv; simpl. auto. Qed.
+
+Lemma Inv_release_sf W st k i : Inv W st -> Inv W (release_sf st k i).
+Proof.
+  intro H. unfold release_sf. destruct (alist_get k (st_sf st)); [|assumption].
+  destruct (Nat.eqb n i); [apply Inv_set_sf|]; assumption.
+Qed.
+
+Lemma release_sf_iters st k i : st_iters (release_sf st k i) = st_iters st.
+Proof.
+  unfold release_sf. destruct (alist_get k (st_sf st)); [|reflexivity].
+  destruct (Nat.eqb n i); reflexivity.
+Qed.
+
+Lemma Inv_write_cache W st k e mx : Inv W st -> entry_good W k e -> Inv W (write_cache st k e mx).
+Proof.
+  intros (Hc & Hw & Hi) He. unfold Inv; simpl. repeat split; auto.
+  - apply cache_good_set; assumption.
+  - intros k' e' mx' Hin. apply in_app_or in Hin as [Hin|Hin]; [eauto|].
+    simpl in Hin. destruct Hin as [Hin|[]]. inversion Hin; subst. exact He.
+Qed.
+
+Lemma Inv_tick W st : Inv W st -> Inv W (tick st).
+Proof. intros (Hc & Hw & Hi). unfold Inv; simpl. auto. Qed.
+
+Lemma Inv_iter W st i it : Inv W st -> nth_error (st_iters st) i = Some it -> iter_good W it.
+Proof. intros (_ & _ & Hi) Hn. eapply Forall_nth_error; eassumption. Qed.
+
+(* ------------------------------------------------------------------------------------------ *)
+(* background goroutine *)
+
+Definition same_but_buf (m m' : miter) : Prop :=
+  mi_var m' = mi_var m /\ mi_key m' = mi_key m /\ mi_markers m' = mi_markers m /\
+  mi_kf m' = mi_kf m /\ mi_max m' = mi_max m /\ mi_inner m' = mi_inner m /\
+  mi_closing m' = mi_closing m /\ mi_init m' = mi_init m /\ mi_phase m' = mi_phase m /\
+  mi_out m' = mi_out m.
+
+Lemma add_to_buffer_spec m t :
+  let m' := fst (add_to_buffer m t) in
+  same_but_buf m m' /\
+  (mi_buf m' = None \/ (mi_buf m' = mi_buf m /\ mi_recs m' = mi_recs m ++ [elide (mi_kf m) t])).
+Proof.
+  unfold add_to_buffer, same_but_buf. destruct (mi_buf m) eqn:Eb; simpl.
+  - destruct (mi_max m <=? length (mi_recs m ++ [elide (mi_kf m) t]))%nat; simpl.
+    + repeat split; auto.
+    + repeat split; auto.
+  - repeat split; auto.
+Qed.
+
+Lemma fold_add_spec l : forall m,
+  let m' := fold_left (fun mm t => fst (add_to_buffer mm t)) l m in
+  same_but_buf m m' /\
+  (mi_buf m' = None \/ (mi_buf m' = mi_buf m /\ mi_recs m' = mi_recs m ++ map (elide (mi_kf m)) l)).
+Proof.
+  induction l as [|t l IH]; intro m; simpl.
+  - split; [unfold same_but_buf; repeat split; auto|]. right. rewrite app_nil_r. auto.
+  - destruct (add_to_buffer_spec m t) as (Hs & Hb). simpl in Hs, Hb.
+    destruct (IH (fst (add_to_buffer m t))) as (Hs' & Hb'). simpl in Hs', Hb'.
+    split.
+    + unfold same_but_buf in *. intuition congruence.
+    + destruct Hb' as [Hn|(Hb1 & Hr1)]; [left; exact Hn|].
+      destruct Hb as [Hn|(Hb2 & Hr2)]; [left; congruence|].
+      right. split; [congruence|]. rewrite Hr1, Hr2.
+      destruct Hs as (_ & _ & _ & Hkf & _). rewrite Hkf. rewrite <- app_assoc. reflexivity.
+Qed.
+
+(* flush only ever writes the whole answer *)
+Lemma flush_good W st m st1 m2 :
+  Inv W st -> miss_good W m -> mi_closing m = true ->
+  (mi_phase m = PBgHead \/ mi_phase m = PBgLoop) ->
+  in_pos (mi_inner m) = length (w_full W (mi_key m)) ->
+  flush st m = (st1, m2) ->
+  Inv W st1 /\ st_iters st1 = st_iters st /\ st_sf st1 = st_sf st /\ miss_good W (mi_finish m2) /\
+  mi_key m2 = mi_key m /\ mi_out m2 = mi_out m /\ mi_var m2 = mi_var m.
+Proof.
+  intros HI Hg Hcl Hph Hpos H.
+  destruct m as [v k mk kf mx inn buf recs cl ini ph o]. simpl in *. subst cl.
+  destruct Hg as (Hin & Hkf & _ & Hst & _ & Hpre & Hbuf). simpl in *.
+  assert (Hfin : forall b' r', miss_good W (mi_finish (mkMI v k mk kf mx inn b' r' true ini ph o))).
+  { intros b' r'. unfold mi_finish; simpl. apply miss_good_fin; auto; try (apply inner_good_stop; assumption). }
+  unfold flush in H; simpl in H.
+  assert (Hrest : forall st' b' r', Inv W st' -> st_iters st' = st_iters st -> st_sf st' = st_sf st ->
+     Inv W st' /\ st_iters st' = st_iters st /\ st_sf st' = st_sf st /\
+     miss_good W (mi_finish (mkMI v k mk kf mx inn b' r' true ini ph o)) /\
+     k = k /\ o = o /\ v = v).
+  { intros st' b' r' H1 H2 H3. split; [exact H1|]. split; [exact H2|]. split; [exact H3|].
+    split; [apply Hfin|]. auto. }
+  destruct v; destruct buf as [b|].
+  - destruct (st_srv st); inversion H; subst st1 m2; clear H; simpl.
+    + apply Hrest; auto.
+    + apply (Hrest (write_cache st k (CE1 recs ini) mx)); try reflexivity.
+      apply Inv_write_cache; [assumption|]. simpl.
+      unfold buf_good in Hbuf; simpl in Hbuf.
+      rewrite Hpos, firstn_all in Hbuf.
+      destruct Hph as [-> | ->]; simpl in Hbuf; rewrite Hbuf, Hkf; reflexivity.
+  - inversion H; subst st1 m2. apply Hrest; auto.
+  - destruct b as [|t b]; inversion H; subst st1 m2; clear H; simpl.
+    + apply Hrest; auto.
+    + apply (Hrest (write_cache st k (CE2 (map minimal (t :: b)) ini) mx)); try reflexivity.
+      apply Inv_write_cache; [assumption|]. simpl.
+      unfold buf_good in Hbuf; simpl in Hbuf.
+      rewrite Hpos, firstn_all in Hbuf.
+      destruct Hph as [-> | ->]; simpl in Hbuf; rewrite <- Hbuf; reflexivity.
+  - inversion H; subst st1 m2. apply Hrest; auto.
+Qed.
+
+Lemma upd_nth_same {A} n (x : A) l : nth_error l n = Some x -> upd_nth n x l = l.
+Proof.
+  revert n; induction l as [|y l IH]; intros [|n]; simpl; intro H; try discriminate.
+  - inversion H; reflexivity.
+  - rewrite IH by assumption. reflexivity.
+Qed.
+
+(* what a step may do to the iterator list: replace iterator i by a miss iterator that the consumer
+   cannot tell from the old one *)
+Definition bg_frame (st st' : state) (i : nat) (m : miter) : Prop :=
+  exists m', st_iters st' = upd_nth i (IMiss m') (st_iters st) /\
+             mi_out m' = mi_out m /\ mi_key m' = mi_key m /\ mi_closing m' = mi_closing m /\
+             mi_var m' = mi_var m.
+
+Lemma bg_frame_refl st i m : nth_error (st_iters st) i = Some (IMiss m) -> bg_frame st st i m.
+Proof. intro H. exists m. rewrite upd_nth_same by assumption. auto. Qed.
+
+Ltac frame_with m' := exists m'; simpl; rewrite ?release_sf_iters; auto.
+
+Lemma bg_step_inv W st i m :
+  Inv W st -> nth_error (st_iters st) i = Some (IMiss m) ->
+  Inv W (fst (bg_step st i m)) /\ bg_frame st (fst (bg_step st i m)) i m.
+Proof.
+  intros HI Hn.
+  assert (Hg : miss_good W m) by (apply (Inv_iter _ _ _ _ HI Hn)).
+  destruct m as [v k mk kf mx inn buf recs cl ini ph o].
+  pose proof Hg as Hg0.
+  destruct Hg as (Hin & Hkf & Hcl & Hst & _ & Hpre & Hbuf). simpl in *.
+  assert (Hfin : forall inn' b' r', inner_good (w_full W k) inn' ->
+            iter_good W (IMiss (mi_finish (mkMI v k mk kf mx inn' b' r' true ini ph o)))).
+  { intros inn' b' r' Hi'. unfold mi_finish; simpl. apply miss_good_fin; auto; try (apply inner_good_stop; assumption). }
+  unfold bg_step; simpl.
+  destruct ph; simpl.
+  - (* PFg *) split; [assumption|apply bg_frame_refl; assumption].
+  - (* PBgInit *)
+    assert (Ec : cl = true) by (destruct cl; [reflexivity|]; destruct Hcl as [Hcl _]; discriminate (Hcl eq_refl)).
+    subst cl.
+    destruct v.
+    + destruct (find_in_cache V1 (st_cache st) (st_inval st) k mk) as [found c'] eqn:Ef.
+      destruct HI as (Hc & Hw & Hi).
+      destruct (find_in_cache_good _ _ _ _ _ _ _ _ Hc Ef) as (Hc' & _).
+      assert (HI1 : Inv W (set_cache st c')) by (unfold Inv; simpl; auto).
+      destruct found as [e|].
+      * simpl. split; [apply Inv_set_iter; [assumption|apply Hfin; assumption]|].
+        frame_with (mi_finish (mkMI V1 k mk kf mx inn None recs true ini PBgInit o)).
+      * destruct (is_invalid_at (st_inval st) ini mk); simpl.
+        -- split; [apply Inv_set_iter; [assumption|apply Hfin; assumption]|].
+           frame_with (mi_finish (mkMI V1 k mk kf mx inn None recs true ini PBgInit o)).
+        -- unfold mi_set_recs at 1; simpl.
+           set (m0 := mkMI V1 k mk kf mx inn buf [] true ini PBgInit o).
+           destruct (fold_add_spec (match buf with Some b => b | None => [] end) m0) as (Hs & Hb).
+           simpl in Hs, Hb.
+           set (m1 := fold_left (fun mm t => fst (add_to_buffer mm t))
+                                (match buf with Some b => b | None => [] end) m0) in *.
+           destruct Hs as (Hv & Hk & Hmk & Hkf1 & Hmx & Hinn & Hcl1 & Hini & Hph & Ho).
+           destruct m1 as [v1 k1 mk1 kf1 mx1 inn1 buf1 recs1 cl1 ini1 ph1 o1]. simpl in *.
+           subst v1 k1 mk1 kf1 mx1 inn1 cl1 ini1 ph1 o1.
+           split.
+           ++ apply Inv_set_iter; [assumption|]. simpl. apply miss_good_bg; auto; try discriminate.
+              unfold buf_good; simpl. destruct buf1 as [b1|]; [|exact I].
+              destruct Hb as [Hb|(Hb1 & Hr1)]; [discriminate|].
+              unfold buf_good in Hbuf; simpl in Hbuf. rewrite <- Hb1 in Hbuf. simpl in Hbuf.
+              rewrite Hr1. rewrite <- Hb1. simpl. rewrite Hbuf. reflexivity.
+           ++ frame_with (mkMI V1 k mk kf mx inn buf1 recs1 true ini PBgHead o).
+    + assert (Hhead : Inv W (set_iter st i (IMiss (mkMI V2 k mk kf mx inn buf recs true ini PBgHead o))) /\
+                      bg_frame st (set_iter st i (IMiss (mkMI V2 k mk kf mx inn buf recs true ini PBgHead o))) i
+                               (mkMI V2 k mk kf mx inn buf recs true ini PBgInit o)).
+      { split.
+        - apply Inv_set_iter; [assumption|]. simpl. apply miss_good_bg; auto; try discriminate.
+          unfold buf_good in *; simpl in *. destruct buf; auto.
+        - frame_with (mkMI V2 k mk kf mx inn buf recs true ini PBgHead o). }
+      destruct (alist_get k (st_cache st)) as [[r0 t0|m0 t0]|]; simpl; try exact Hhead.
+      split; [apply Inv_set_iter; [assumption|apply Hfin; assumption]|].
+      frame_with (mi_finish (mkMI V2 k mk kf mx inn None recs true ini PBgInit o)).
+  - (* PBgHead *)
+    assert (Ec : cl = true) by (destruct cl; [reflexivity|]; destruct Hcl as [Hcl _]; discriminate (Hcl eq_refl)).
+    subst cl.
+    assert (Hns : in_stopped inn = false) by (apply Hst; discriminate).
+    set (mm := mkMI v k mk kf mx inn buf recs true ini PBgHead o) in *.
+    destruct (inner_call false (bg_ctx st mm) inn) as [inn' r] eqn:Ecall.
+    destruct (inner_call_spec _ _ _ _ _ _ Hin Ecall) as (Hin' & Hs' & Hr).
+    rewrite Hns in Hs'.
+    assert (Hp : in_pos inn' = in_pos inn).
+    { destruct r as [t| |e]; [destruct Hr as (_ & Hp & _)|destruct Hr as (Hp & _)|]; assumption. }
+    assert (Hg1 : forall ph', ph' = PBgHead \/ ph' = PBgLoop \/ (exists ow, ph' = PBgWait ow) ->
+              miss_good W (mkMI v k mk kf mx inn' buf recs true ini ph' o)).
+    { intros ph' Hph'. apply miss_good_bg; auto.
+      - destruct Hph' as [->|[->|(ow & ->)]]; discriminate.
+      - unfold buf_good in *; simpl in *. rewrite Hp.
+        destruct Hph' as [->|[->|(ow & ->)]]; exact Hbuf. }
+    assert (Hother : Inv W (fst (match alist_get k (st_sf st) with
+              | Some owner => (set_iter st i (IMiss (mi_set_phase (mi_set_inner mm inn') (PBgWait owner))), OBgRes (Some r) false)
+              | None => (set_iter (set_sf st ((k, i) :: st_sf st)) i (IMiss (mi_set_phase (mi_set_inner mm inn') PBgLoop)), OBgRes (Some r) false)
+              end)) /\
+            bg_frame st (fst (match alist_get k (st_sf st) with
+              | Some owner => (set_iter st i (IMiss (mi_set_phase (mi_set_inner mm inn') (PBgWait owner))), OBgRes (Some r) false)
+              | None => (set_iter (set_sf st ((k, i) :: st_sf st)) i (IMiss (mi_set_phase (mi_set_inner mm inn') PBgLoop)), OBgRes (Some r) false)
+              end)) i mm).
+    { destruct (alist_get k (st_sf st)) as [ow|]; simpl.
+      - split; [apply Inv_set_iter; [assumption|]; apply Hg1; right; right; eexists; reflexivity|].
+        frame_with (mkMI v k mk kf mx inn' buf recs true ini (PBgWait ow) o).
+      - split; [apply Inv_set_iter; [apply Inv_set_sf; assumption|]; apply Hg1; auto|].
+        frame_with (mkMI v k mk kf mx inn' buf recs true ini PBgLoop o). }
+    destruct r as [t| |e]; try exact Hother.
+    destruct Hr as (_ & Hd). specialize (Hd Hns).
+    destruct (flush st (mi_set_inner mm inn')) as [st1 m2] eqn:Efl.
+    destruct (flush_good W st _ st1 m2 HI (Hg1 PBgHead (or_introl eq_refl)) eq_refl (or_introl eq_refl)
+                         ltac:(simpl; rewrite Hp; exact Hd) Efl)
+      as (HI1 & Hit1 & _ & Hg2 & Hk2 & Ho2 & Hv2).
+    simpl. split; [apply Inv_set_iter; assumption|].
+    exists (mi_finish m2). simpl. rewrite Hit1. simpl in *. auto.
+  - (* PBgWait *)
+    destruct (alist_get k (st_sf st)) as [ow|]; simpl.
+    + destruct (Nat.eqb ow owner); simpl.
+      * split; [assumption|apply bg_frame_refl; assumption].
+      * assert (Ec : cl = true) by (destruct cl; [reflexivity|]; destruct Hcl as [Hcl _]; discriminate (Hcl eq_refl)).
+        subst cl. split; [apply Inv_set_iter; [assumption|apply Hfin; assumption]|].
+        frame_with (mi_finish (mkMI v k mk kf mx inn buf recs true ini (PBgWait owner) o)).
+    + assert (Ec : cl = true) by (destruct cl; [reflexivity|]; destruct Hcl as [Hcl _]; discriminate (Hcl eq_refl)).
+      subst cl. split; [apply Inv_set_iter; [assumption|apply Hfin; assumption]|].
+      frame_with (mi_finish (mkMI v k mk kf mx inn buf recs true ini (PBgWait owner) o)).
+  - (* PBgLoop *)
+    assert (Ec : cl = true) by (destruct cl; [reflexivity|]; destruct Hcl as [Hcl _]; discriminate (Hcl eq_refl)).
+    subst cl.
+    assert (Hns : in_stopped inn = false) by (apply Hst; discriminate).
+    set (mm := mkMI v k mk kf mx inn buf recs true ini PBgLoop o) in *.
+    destruct (inner_call true (bg_ctx st mm) inn) as [inn' r] eqn:Ecall.
+    destruct (inner_call_spec _ _ _ _ _ _ Hin Ecall) as (Hin' & Hs' & Hr).
+    rewrite Hns in Hs'.
+    destruct r as [t| |e].
+    + (* item *)
+      destruct Hr as (Hnth & Hp & _).
+      assert (Hsn : firstn (in_pos inn') (w_full W k) = firstn (in_pos inn) (w_full W k) ++ [t]).
+      { rewrite Hp. apply firstn_snoc. exact Hnth. }
+      destruct v.
+      * unfold add_to_buffer; simpl. destruct buf as [b|]; simpl.
+        -- destruct (mx <=? length (recs ++ [elide kf t]))%nat; simpl.
+           ++ split.
+              ** apply Inv_set_iter; [assumption|]. simpl. apply miss_good_bg; auto; try discriminate.
+                 unfold buf_good; simpl. exact I.
+              ** frame_with (mkMI V1 k mk kf mx inn' None [] true ini PBgLoop o).
+           ++ split.
+              ** apply Inv_set_iter; [assumption|]. simpl. apply miss_good_bg; auto; try discriminate.
+                 unfold buf_good in *; simpl in *. rewrite Hsn, map_app, Hbuf. reflexivity.
+              ** frame_with (mkMI V1 k mk kf mx inn' (Some b) (recs ++ [elide kf t]) true ini PBgLoop o).
+        -- split; [apply Inv_set_iter; [apply Inv_release_sf; assumption|apply Hfin; assumption]|].
+           frame_with (mi_finish (mkMI V1 k mk kf mx inn' None recs true ini PBgLoop o)).
+      * destruct buf as [b|]; simpl.
+        -- destruct (mx <? length (b ++ [t]))%nat; simpl.
+           ++ split; [apply Inv_set_iter; [apply Inv_release_sf; assumption|apply Hfin; assumption]|].
+              frame_with (mi_finish (mkMI V2 k mk kf mx inn' None recs true ini PBgLoop o)).
+           ++ split.
+              ** apply Inv_set_iter; [assumption|]. simpl. apply miss_good_bg; auto; try discriminate.
+                 unfold buf_good in *; simpl in *. rewrite Hsn, Hbuf. reflexivity.
+              ** frame_with (mkMI V2 k mk kf mx inn' (Some (b ++ [t])) recs true ini PBgLoop o).
+        -- split; [apply Inv_set_iter; [apply Inv_release_sf; assumption|apply Hfin; assumption]|].
+           frame_with (mi_finish (mkMI V2 k mk kf mx inn' None recs true ini PBgLoop o)).
+    + (* done *)
+      destruct Hr as (Hp & Hd). specialize (Hd Hns).
+      assert (Hg1 : miss_good W (mi_set_inner mm inn')).
+      { unfold mm; simpl. apply miss_good_bg; auto; try discriminate.
+        unfold buf_good in *; simpl in *. rewrite Hp. exact Hbuf. }
+      destruct (flush st (mi_set_inner mm inn')) as [st1 m2] eqn:Efl.
+      destruct (flush_good W st _ st1 m2 HI Hg1 eq_refl (or_intror eq_refl)
+                           ltac:(simpl; rewrite Hp; exact Hd) Efl)
+        as (HI1 & Hit1 & _ & Hg2 & Hk2 & Ho2 & Hv2).
+      simpl. split; [apply Inv_set_iter; [apply Inv_release_sf; assumption|assumption]|].
+      exists (mi_finish m2). simpl. rewrite release_sf_iters, Hit1. simpl in *. auto.
+    + (* error *)
+      split.
+      * apply Inv_set_iter; [apply Inv_release_sf; assumption|].
+        destruct v; simpl; apply Hfin; assumption.
+      * destruct v.
+        -- frame_with (mi_finish (mkMI V1 k mk kf mx inn' buf recs true ini PBgLoop o)).
+        -- frame_with (mi_finish (mkMI V2 k mk kf mx inn' None recs true ini PBgLoop o)).
+  - (* PFin *) split; [assumption|apply bg_frame_refl; assumption].
 Qed.
